@@ -38,6 +38,14 @@ deriving Repr, BEq, DecidableEq, Inhabited
 def SP.thickness (s : SP) : Int := (s.layers.map (·.thickness)).foldl (· + ·) 0
 def SP.wellFormed (s : SP) : Prop := s.layers.length = s.ifaces.length
 
+/-- `Snowpack.z`: depth of every interface, `0` and the bottom of each layer (`np.insert(np.cumsum(thickness), 0, 0)`); a view
+    derived from the layers the medium holds *now* -/
+def SP.z (s : SP) : List Int := (s.layers.map (·.thickness)).scanl (· + ·) 0
+/-- `Snowpack.bottom_layer_depths` -/
+def SP.bottomDepths (s : SP) : List Int := s.z.tail
+/-- `Snowpack.top_layer_depths` -/
+def SP.topDepths (s : SP) : List Int := s.z.dropLast
+
 /-- the right operand of `+` / `+=` -/
 inductive Operand where
   | sp (id : Nat)
